@@ -204,6 +204,7 @@ class PVLParser(object):
         """Converts the string, *s* to a PVLModule."""
         self.doc = s
         self._simple_value = (None, None)
+        self._equals_pos = None
         tokens = self.lexer(s, g=self.grammar, d=self.decoder)
         module = self.parse_module(tokens)
         module.errors = sorted(self.errors)
@@ -412,7 +413,20 @@ class PVLParser(object):
           <WSC>* '=' <WSC>*
 
         """
-        if not self.parse_WSC_until("=", tokens):
+        found = False
+        for t in tokens:
+            if t == "=":
+                # Remembered for OmniParser._empty_value()
+                self._equals_pos = getattr(t, "pos", None)
+                found = True
+                break
+            elif t.is_WSC():
+                pass
+            else:
+                tokens.send(t)
+                break
+
+        if not found:
             try:
                 t = next(tokens)
                 tokens.send(t)
@@ -919,7 +933,13 @@ class OmniParser(PVLParser):
     """
 
     def _empty_value(self, pos):
-        eq_pos = self.doc.rfind("=", 0, pos)
+        # The position of the equals sign of the statement that is being
+        # parsed is known from parse_around_equals().  Searching the text
+        # backwards from *pos* is only a fall-back: it can be fooled by an
+        # equals sign in a comment.
+        eq_pos = getattr(self, "_equals_pos", None)
+        if eq_pos is None:
+            eq_pos = self.doc.rfind("=", 0, pos)
         lc = linecount(self.doc, eq_pos)
         self.errors.append(lc)
         return EmptyValueAtLine(lc)
@@ -973,6 +993,8 @@ class OmniParser(PVLParser):
                     # Fix the previous entry
                     module.pop()
                     module.append(last_k, self._empty_value(t.pos))
+                    # From here on, *t* is the equals sign being parsed.
+                    self._equals_pos = t.pos
                     # Now use last_token as the parameter name
                     # for the next assignment, and we must
                     # reproduce the last part of parse-assignment:
